@@ -11,6 +11,9 @@ Import ListNotations.
           - stage i has ended everything it began (begin and end alternate);
           - i = 1, or stage i-1 has already ended item k (its ends are numbered 0,1,2,.. too, so
             "k < number of ends of stage i-1" says exactly that end(i-1,k) is in pre);
+          - back-pressure (the channels are unbuffered): every later stage i+j <= n has ended at
+            least k-j items - stage i can take item k only after handing k-1 to stage i+1, which
+            can take that only after handing k-2 to stage i+2, and so on;
    end    - stage i has exactly one open begin, and it is for item k.                          *)
 Definition ev_ok (n : nat) (pre : list event) (e : event) : Prop :=
   let i := ev_stage e in
@@ -20,7 +23,8 @@ Definition ev_ok (n : nat) (pre : list event) (e : event) : Prop :=
   | EvBegin =>
       k = count_ev i EvBegin pre /\
       count_ev i EvBegin pre = count_ev i EvEnd pre /\
-      (i = 1 \/ k < count_ev (pred i) EvEnd pre)
+      (i = 1 \/ k < count_ev (pred i) EvEnd pre) /\
+      (forall j, 1 <= j -> i + j <= n -> k <= count_ev (i + j) EvEnd pre + j)
   | EvEnd =>
       count_ev i EvBegin pre = S (count_ev i EvEnd pre) /\
       k = count_ev i EvEnd pre
@@ -47,3 +51,45 @@ Fixpoint index_of (p : event -> bool) (tr : list event) : option nat :=
 
 Definition is_ev (i : nat) (p : evphase) (k : nat) (e : event) : bool :=
   (ev_stage e =? i) && evphase_eqb (ev_ph e) p && (ev_item e =? k).
+
+(* ------------------------------------------------------------------------------------------
+   The checker as it was before the back-pressure clause (kept for the refutation
+   trace_ok_loose_exact_refuted: it accepts traces that no run of the transition system emits). *)
+Definition ev_ok_loose_b (n : nat) (pre : list event) (e : event) : bool :=
+  let i := ev_stage e in
+  let k := ev_item e in
+  (1 <=? i) && (i <=? n) &&
+  match ev_ph e with
+  | EvBegin =>
+      (k =? count_ev i EvBegin pre) &&
+      (count_ev i EvBegin pre =? count_ev i EvEnd pre) &&
+      ((i =? 1) || (k <? count_ev (pred i) EvEnd pre))
+  | EvEnd =>
+      (count_ev i EvBegin pre =? S (count_ev i EvEnd pre)) &&
+      (k =? count_ev i EvEnd pre)
+  end.
+
+Fixpoint trace_ok_loose_aux (n : nat) (pre_rev tr : list event) : bool :=
+  match tr with
+  | [] => true
+  | e :: rest => ev_ok_loose_b n pre_rev e && trace_ok_loose_aux n (e :: pre_rev) rest
+  end.
+
+Definition trace_ok_loose (n : nat) (tr : list event) : bool := trace_ok_loose_aux n [] tr.
+
+(* ------------------------------------------------------------------------------------------
+   Which traces a given instance (m items, failure oracle [fails]) can emit, beyond what the
+   checker sees: items are below m, and a begin of item k at stage i needs
+     - stage i-1 to have ended k successfully (a failed stage hands nothing over),
+     - stage i itself to have succeeded on k-1, stage i+1 on k-2, ..., stage i+j on k-1-j
+       (a stage that failed never receives again, so the stages before it block in Push).
+   [respects] is what the oracle adds to [tr_spec]; Properties/C19.v C19_trace_exact. *)
+Definition respects_ev (n m : nat) (fails : nat -> nat -> bool) (e : event) : Prop :=
+  ev_item e < m /\
+  (ev_ph e = EvBegin ->
+     (2 <= ev_stage e -> fails (pred (ev_stage e)) (ev_item e) = false) /\
+     (forall j, ev_stage e + j <= n -> S j <= ev_item e ->
+        fails (ev_stage e + j) (ev_item e - S j) = false)).
+
+Definition respects (n m : nat) (fails : nat -> nat -> bool) (tr : list event) : Prop :=
+  Forall (respects_ev n m fails) tr.
